@@ -133,8 +133,8 @@ static void lookat_d(pbt::Ctx& c) { lookat_p<double>(c); }
 	"cases with eye == center or sin(angle(view,up)) < 1e-3 are discarded; lookAtRH and lookAtLH: last row (0,0,0,1), upper 3x3 orthonormal with det 1, eye -> origin (cancellation bound of the stored rows), view direction -> -z / +z, " \
 	"up -> x = 0 and y = sin > 0, every entry against the matrix these conditions determine (bound ~ 9u/sin); lookAt bit-identical to the variant of the configured handedness; " \
 	"non-trivial = bound below 1e-2, offset with two non-zero components, eye not the origin"
-PBT_RANDOM(C09_CFG "/lookAt/float", lookat_f, 600000, 20000000, LOOKAT_RULE);
-PBT_RANDOM(C09_CFG "/lookAt/double", lookat_d, 600000, 20000000, LOOKAT_RULE);
+PBT_RANDOM(C09_CFG "/lookAt/float", lookat_f, 600000, 12000000, LOOKAT_RULE);
+PBT_RANDOM(C09_CFG "/lookAt/double", lookat_d, 600000, 12000000, LOOKAT_RULE);
 
 // =============================================================================================
 // decompose / recompose
@@ -247,10 +247,11 @@ template <class T, bool HaveD, bool HaveR> static void decomp_p(pbt::Ctx& c) {
 	"perspective exactly (0,0,0,1) for affine M, |scale.x| = |column 0|, scale sign = determinant sign; recompose(decompose(M)) against M/M[3][3]; non-trivial = non-uniform scale, random rotation, non-zero translation"
 static void decomp_f(pbt::Ctx& c) { decomp_p<float, HAVE_decompose_float_highp, HAVE_recompose_float_highp>(c); }
 static void decomp_d(pbt::Ctx& c) { decomp_p<double, HAVE_decompose_double_highp, HAVE_recompose_double_highp>(c); }
-PBT_RANDOM(C09_CFG "/decompose_recompose/float", decomp_f, 400000, 20000000, DECOMP_RULE);
-PBT_RANDOM(C09_CFG "/decompose_recompose/double", decomp_d, 400000, 20000000, DECOMP_RULE);
+PBT_RANDOM(C09_CFG "/decompose_recompose/float", decomp_f, 400000, 12000000, DECOMP_RULE);
+PBT_RANDOM(C09_CFG "/decompose_recompose/double", decomp_d, 400000, 12000000, DECOMP_RULE);
 
-// ---- instantiation: decompose / recompose are declared for every T, Q
+// ---- instantiation: decompose / recompose are declared for every T, Q (registered by the right-handed build only: the handedness macro does not reach these templates)
+#ifndef C09_EXPECT_LH
 struct Inst { const char* name; int have; };
 static const Inst INSTS[] = {
 #define XI(fn, ty) {#fn "<" #ty ">", HAVE_##fn##_##ty},
@@ -266,6 +267,7 @@ static void prop_inst(pbt::Ctx& c) {
 	if (!INSTS[i].have) c.failk(std::string("uninstantiable/") + INSTS[i].name, "%s is declared for this element type and qualifier but its body does not compile", INSTS[i].name);
 }
 PBT_SWEEP(C09_CFG "/instantiation", prop_inst, sizeof(INSTS) / sizeof(INSTS[0]), 1, 1, "decompose and recompose instantiated with -fsyntax-only for T in {float,double} x Q in {highp,mediump,lowp} by the pre-pass; all are non-trivial");
+#endif
 
 // =============================================================================================
 // matrix_interpolation
